@@ -165,6 +165,13 @@ func ruleC12(w *World, r *Report) {
 		if constFlag(iff.Cond, map[ssa.Value]bool{}) {
 			continue
 		}
+		// … or that holds what a kind test against ';'/<eof> said about an earlier token (afterSemicolon = tok.Kind == ";")
+		if kindFlag(iff.Cond, map[ssa.Value]bool{}, func(v ssa.Value) bool {
+			t, _, ok := tk.tokenTest(nil, v)
+			return ok && (t.atom == ";" || t.atom == eofAtom)
+		}) {
+			continue
+		}
 		badCond = "condition at " + w.pos(condPos(iff)) + " is not a kind test against ';'/<eof>, an error test, a position comparison, a length test or a flag of the loop"
 	}
 	if badCond != "" {
@@ -504,6 +511,32 @@ func constFlag(v ssa.Value, seen map[ssa.Value]bool) bool {
 		return true
 	case *ssa.UnOp:
 		return x.Op == token.NOT && constFlag(x.X, seen)
+	}
+	return false
+}
+
+// kindFlag: like constFlag, the values may also be kind tests accepted by isTest.
+func kindFlag(v ssa.Value, seen map[ssa.Value]bool, isTest func(ssa.Value) bool) bool {
+	if seen[v] {
+		return true
+	}
+	seen[v] = true
+	if isTest(v) {
+		return true
+	}
+	switch x := v.(type) {
+	case *ssa.Const:
+		_, ok := constBool(x)
+		return ok
+	case *ssa.Phi:
+		for _, e := range x.Edges {
+			if !kindFlag(e, seen, isTest) {
+				return false
+			}
+		}
+		return true
+	case *ssa.UnOp:
+		return x.Op == token.NOT && kindFlag(x.X, seen, isTest)
 	}
 	return false
 }
